@@ -1275,3 +1275,32 @@ RECIPES += [
     ("C03", "break", ["C03-R1"], S, _RA_NZ, _RA_NZ.replace("if wn != 0.0:", "if B > 1e-4:"), "relacce: general numerator only above a threshold on B"),
     ("C03", "neutral", [], S, _RA_NZ, _RA_NZ.replace("if wn != 0.0:", "if B > 0:"), "relacce: general numerator for B > 0"),
 ]
+
+# ---- pass 6 (N38): slice objects, ufunc calls with out=, a display indexed by the time code
+_SER_NOIC = ("                resphist = signal.lfilter(b, a, sig, axis=0)\n                SRSmax[j] = methfunc(resphist[S:])\n"
+             "                if getresp:\n                    resp[\"hist\"][:, :, j] = resphist[S:]\n")
+_SER_KEEP = ("                resphist = signal.lfilter(b, a, sig, axis=0)\n                keep = slice(S, None)\n                SRSmax[j] = methfunc(resphist[keep])\n"
+             "                if getresp:\n                    resp[\"hist\"][..., j] = resphist[keep]\n")
+_W_NOHIST = "    resphist = signal.lfilter(b, a, SIG_, axis=0)\n    SRSmax_[j] = methfunc(resphist[S:])\n\n\ndef _dosrs(args):"
+_S_SEL = "    S = M if ptr == 2 else 0\n"
+_IC_ADD = "                    resphist += icvals\n"
+RECIPES += [
+    ("C03", "neutral", [], S, _SER_NOIC, _SER_KEEP, "srs: the evaluated window as a hoisted slice(S, None) object"),
+    ("C03", "neutral", [], S, _SER_NOIC, _SER_KEEP.replace("slice(S, None)", "slice(S, None, None)"), "srs: slice(S, None, None)"),
+    ("C03", "break", ["C03-R4"], S, _SER_NOIC, _SER_KEEP.replace("slice(S, None)", "slice(S)"), "srs: slice(S) is `:S` - the residual window becomes the primary one"),
+    ("C03", "break", ["C03-R4"], S, _SER_NOIC, _SER_KEEP.replace("slice(S, None)", "slice(None, S)"), "srs: slice(None, S)"),
+    ("C03", "break", ["C03-R4"], S, _SER_NOIC, _SER_KEEP.replace("slice(S, None)", "slice(0, None)"), "srs: slice object that ignores the start of the residual window"),
+    ("C03", "neutral", [], S, _W_NOHIST, _W_NOHIST.replace("resphist[S:]", "resphist[slice(S, None)]"), "_dosrs_nohist: slice object in the worker"),
+    ("C03", "neutral", [], S, _S_SEL, "    S = (0, 0, M)[ptr]\n", "srs: window start selected from a display by the time code"),
+    ("C03", "neutral", [], S, _S_SEL, "    S = [0, 0, M][ptr]\n", "srs: window start selected from a list display"),
+    ("C03", "break", ["C03-R4"], S, _S_SEL, "    S = (0, M, M)[ptr]\n", "srs: display gives the total window the residual start"),
+    ("C03", "break", ["C03-R4"], S, _S_SEL, "    S = (M, 0, 0)[ptr]\n", "srs: display entries rotated"),
+    ("C03", "neutral", [], S, _IC_ADD, "                    np.add(resphist, icvals, out=resphist)\n", "srs: add-back as np.add(..., out=resphist)"),
+    ("C03", "break", ["C03-R3"], S, _IC_ADD, "                    np.subtract(resphist, icvals, out=resphist)\n", "srs: np.subtract(..., out=resphist) instead of the add-back"),
+    ("C03", "break", ["C03-R3"], S, _IC_ADD, "                    np.add(resphist, icvals)\n", "srs: np.add without out= - the add-back is dropped"),
+    ("C03", "neutral", [], S, _RA_NZ, _RA_NZ.replace("b *= (E * sin(B)) / B", "np.multiply(b, (E * sin(B)) / B, out=b)"), "relacce: np.multiply(..., out=b)"),
+    ("C03", "break", ["C03-R1"], S, _RA_NZ, _RA_NZ.replace("b *= (E * sin(B)) / B", "np.multiply(b, (E * sin(B)) / B)"), "relacce: np.multiply without out= - the scaling is dropped"),
+]
+RECIPES += [
+    ("C03", "neutral", [], S, _SER_NOIC, _SER_NOIC.replace("resphist[S:]", "resphist[S:N]"), "srs: window with its end spelled out (N rows of the filtered signal)"),
+]
